@@ -204,6 +204,8 @@ def base_gates():
         ("H", [0], None, "", False), ("RZ", [1], None, 0.3, True), ("CNOT", [1], [0], "", False), ("CNOT", [2], [0, 1], "", False),
         ("RX", [2], None, "alpha", False), ("SWAP", [0, 2], None, "", False), ("CRZ", [0], [2], 2.5, True), ("MEASURE", [1], None, "", False),
         ("X", [3], None, "", False), ("PHASE", [0], None, -0.3, False),
+        # same-kind rotations on the same qubits whose variational flags DIFFER (a merge of the two has to carry the flag into every list)
+        ("RZ", [1], None, 0.4, False), ("PHASE", [0], None, 0.2, True), ("CRZ", [0], [2], -0.5, False),
     ]
 
 
@@ -215,6 +217,7 @@ def circuits(tier):
     out += [list(p) for p in (pairs[::3] if tier == "quick" else pairs)]
     triples = list(itertools.product([0, 1, 2, 3, 6, 7], repeat=3))
     out += [list(t) for t in (triples[::11] if tier == "quick" else triples[::2])]
+    out += [list(p) for p in ((10, 1), (1, 10), (9, 11), (11, 9), (12, 6), (6, 12), (10, 1, 10), (1, 10, 1), (12, 6, 6))]     # kept in every tier
     return out
 
 
